@@ -460,11 +460,19 @@ impl Run {
             }
             "sub" => {
                 let s = a(1);
-                let member = st[2].as_str().map(|x| x.to_string());
-                let rule = member.as_ref().map(|m| format!("type='signal',member='{m}'"));
+                // member "A": type='signal',member='A';  "~A": member='A' (no type key: matches signals too, so it
+                // belongs on the bus);  "^A": type='method_call',member='A' (not a signal subscription)
+                let raw = st[2].as_str().map(|x| x.to_string());
+                let (rtype, member) = match raw.as_deref() {
+                    Some(m) if m.starts_with('~') => ("", Some(m[1..].to_string())),
+                    Some(m) if m.starts_with('^') => ("method_call", Some(m[1..].to_string())),
+                    Some(m) => ("signal", Some(m.to_string())),
+                    None => ("", None),
+                };
+                let rule = member.as_ref().map(|m| if rtype.is_empty() { format!("member='{m}'") } else { format!("type='{rtype}',member='{m}'") });
                 let cap = st[3].as_u64().map(|x| x as usize);
                 let canon = rule.as_ref().and_then(|r| zbus::MatchRule::try_from(r.as_str()).ok()).map(|r| r.to_string()).unwrap_or_default();
-                emit(&self.sh, json!({"ev":"SubStart","stream":s,"member":member.clone().unwrap_or_default(),"cap":cap.unwrap_or(0),"rule":canon}));
+                emit(&self.sh, json!({"ev":"SubStart","stream":s,"member":member.clone().unwrap_or_default(),"cap":cap.unwrap_or(0),"rule":canon,"rtype":rtype}));
                 let g: GateRc = Rc::new(RefCell::new(Gate::default()));
                 self.gates.insert(s, g.clone());
                 let conn = self.conn.as_ref().unwrap().clone();
@@ -680,6 +688,21 @@ impl Run {
                         json!("done")
                     });
                     let t = self.sched.add("shutdown", fut);
+                    self.sched.poll(t);
+                }
+            }
+            "shutdownclone" => {
+                // graceful_shutdown() through another handle of the same connection (Connection is Clone)
+                if let Some(c) = self.clones.remove(&a(1)) {
+                    emit(&self.sh, json!({"ev":"ShutdownStart","which":a(1)}));
+                    let sh = self.sh.clone();
+                    let k = a(1);
+                    let fut: Pin<Box<dyn Future<Output = J>>> = Box::pin(async move {
+                        c.graceful_shutdown().await;
+                        emit(&sh, json!({"ev":"ShutdownDone","which":k}));
+                        json!("done")
+                    });
+                    let t = self.sched.add(&format!("shutdown{k}"), fut);
                     self.sched.poll(t);
                 }
             }
